@@ -24,7 +24,7 @@ Next == SUpdate \/ SReset \/ BSetRef \/ BUpdate
 Spec == Init /\ [][Next]_vars
 Bound == TLCGet("level") <= Depth
 
-LC == INSTANCE Lifecycle WITH RestartTo <- 1, Incs <- {1}, HasRecs <- FALSE, EpochBound <- TRUE, RefRestart <- TRUE,
+LC == INSTANCE Lifecycle WITH ltab <- [restart |-> 1, incs |-> {1}, hasrecs |-> FALSE, epochbound |-> TRUE, refrestart |-> TRUE],
         state <- st, recs <- <<-1, -1>>,
         warm <- IF dcfg.kind = "stream" THEN tree # NoTree /\ testn >= dcfg.W ELSE tree # NoTree /\ since >= 1
 LCSpec == LC!Spec
